@@ -62,9 +62,13 @@ func (e *Exec) call(fr *Frame, st *BState, x *ssa.Call) SV {
 			ghostTypes[k] = a.Type()
 		}
 		r := havoc("invoke " + c.Method.FullName())
-		if _, isTuple := resT.(*types.Tuple); !isTuple {
+		if tt, isTuple := resT.(*types.Tuple); !isTuple {
 			st.ghost["$lastres."+c.Method.Name()] = r
 			ghostTypes["$lastres."+c.Method.Name()] = resT
+		} else if tv, ok := r.(*TupleV); ok && tt.Len() > 0 && len(tv.Elems) == tt.Len() {
+			// several results: lastres(Name) is the final one (the error, by Go convention)
+			st.ghost["$lastres."+c.Method.Name()] = tv.Elems[tt.Len()-1]
+			ghostTypes["$lastres."+c.Method.Name()] = tt.At(tt.Len() - 1).Type()
 		}
 		return r
 	}
